@@ -314,6 +314,91 @@ class SplitParams(Stream):
                 "e,o=c12.run_param(d); print(e); print(o)\n")
 
 
+# ---------------------------------------------------------------------------------------------
+# split() after the circuit was edited (a structure cut, added again and wired elsewhere)
+
+
+def gen_edited(rng, tier):
+    while True:
+        d = gen_graph(rng, tier)
+        nc = len(d["comps"])
+        linked = sorted({e[0] for c in d["conns"] for e in c})
+        if nc < 3 or not linked:
+            continue
+        i = rng.choice(linked)
+        final_conns = [c for c in d["conns"] if c[0][0] != i and c[1][0] != i]
+        used = {tuple(e) for c in final_conns for e in c}
+        exposed = {(x[0], x[1]) for x in d["expo"]}
+        mine = [(i, k) for k in range(d["comps"][i]["n"])]
+        others = [(j, k) for j in range(nc) if j != i for k in range(d["comps"][j]["n"])
+                  if (j, k) not in used and (j, k) not in exposed]
+        rng.shuffle(mine)
+        rng.shuffle(others)
+        new = []
+        for x in mine[:rng.randint(0, 2)]:
+            if others:
+                new.append([list(x), list(others.pop())])
+        e = copy.deepcopy(d)
+        e["edit"] = {"cut": i, "new": new}
+        e["final_conns"] = final_conns + new
+        newused = {tuple(x) for c in new for x in c}
+        e["final_expo"] = [x for x in d["expo"] if x[0] != i and (x[0], x[1]) not in newused]
+        e["final_order"] = [j for j in d["order"] if j != i] + [i]
+        return e
+
+
+class EditedSplit(SplitStream):
+    """the circuit is built, one linked structure is cut, added again and wired to other free pins; then split()"""
+    name = "split_after_edit"
+
+    def generate(self, rng, tier):
+        return [gen_edited(rng, tier) for _ in range(100 if tier == "quick" else 1500)]
+
+    def run(self, d):
+        final = {"comps": d["comps"], "conns": d["final_conns"], "expo": d["final_expo"]}
+        try:
+            sol, sts = build_ordered(d)
+            i = d["edit"]["cut"]
+            sol.cut_structure(sts[i])
+            sol.add_structure(sts[i])
+            for a, b in d["edit"]["new"]:
+                sol.connect(sts[a[0]], Pin(f"p{a[1]}"), sts[b[0]], Pin(f"p{b[1]}"))
+            ids = {id(st): j for j, st in sts.items()}
+            subs = sol.split()
+            parts = []
+            for sub in subs:
+                members = [ids[id(st)] for st in sub.structures]
+                names = [x[2] for x in d["final_expo"] if x[0] in members]
+                try:
+                    mod = sub.solve()
+                    if sorted(p.name for p in mod.pin_dic) != sorted(names):
+                        raise ValueError("exposed pins of the part differ")
+                    o = netlib.obs_matrix_lit(netlib.observe_expo(mod, names))
+                except Exception:
+                    o = "Raised"
+                parts.append("(%s, %s)" % (clist(cnat(m) for m in members), o))
+            obs = "Obs " + clist(parts)
+        except Exception:
+            obs = "Raised"
+        return ("{| sp_comps := %s; sp_conns := %s; sp_expo := %s; sp_order := %s; sp_parts := %s |}"
+                % (netlib.comps_lit(final), netlib.conns_lit(final), netlib.expo_lit(final),
+                   clist(cnat(j) for j in d["final_order"]), obs))
+
+    def shrink(self, d):
+        out = []
+        for k in range(len(d["edit"]["new"])):
+            e = copy.deepcopy(d)
+            gone = e["edit"]["new"].pop(k)
+            e["final_conns"] = [c for c in e["final_conns"] if c != gone]
+            out.append(e)
+        return out
+
+    def py_repro(self, d):
+        return ("import sys; sys.path.insert(0,'/verif/harness'); import c12, json\n"
+                f"d=json.loads({json.dumps(d)!r})\n"
+                "print(c12.EditedSplit().run(d)[-600:])\n")
+
+
 TRUSTED = [
     "Coq 8.16.1 kernel + vm_compute", "Bignums/Uint63 primitives for the executed instance BQCf",
     "hand-written model Split.v tied to /repo by this correspondence run (sampled)",
@@ -321,7 +406,7 @@ TRUSTED = [
 ]
 
 if __name__ == "__main__":
-    main("C12", [SplitStream(), SplitParams()],
+    main("C12", [SplitStream(), EditedSplit(), SplitParams()],
          level_text="props/C12.v; the tie runs split() of /repo on random graphs (trees, cycles, multi-links, isolated "
                     "structures) in random declaration orders, compares the partition as a set of sets with the model of the "
                     "incremental union and every returned solver's matrix with the model's solve of that part; parametric circuits (renamed phase shifters, waveguides, add_param, solver defaults): every part must answer like the original for several assignments including none, also after the original's defaults are changed later.",
